@@ -1008,16 +1008,24 @@ def rule_EF3(ctx, tier):
     # Every turn of its 0..n loop that does not fail pushes the block it fetched onto the vector it returns: the size of both
     # caches is the number of blocks handed over at start-up, for good.
     gl = None
+    from .rulekit import is_iter_next as is_iter_next_
+    # a call "fetches" if it is Poll::fetch_block or a (new, async) helper of the same crate that reaches it
+    def _fetching(t_):
+        tg_ = call_target(t_) or ""
+        if "Poll" in tg_ and tg_.endswith("::fetch_block"):
+            return True
+        return tg_.startswith("teosd::") and tg_ in P.bodies and ctx.pf.reaches_call(tg_, lambda names: any(n.endswith("::fetch_block") for n in names))
     for bid in P.family("teosd::get_last_n_blocks") if "teosd::get_last_n_blocks" in P.bodies else []:
-        if sites_containing(P.bodies[bid], "Poll", "fetch_block"):
+        if any(_fetching(t_) for _, t_ in P.bodies[bid].calls()) and any(is_iter_next_(P.bodies[bid], bb_) for bb_ in P.bodies[bid].rpo()):
             gl = P.bodies[bid]
     if gl is None:
         rr.anchor_missing("teosd::get_last_n_blocks")
     else:
         from .rulekit import is_iter_next, always_reaches
         nx = [bb for bb in gl.rpo() if is_iter_next(gl, bb) and "ops::Range" in (call_target(gl.term(bb)) or "")]
-        pushes = [bb for bb, t in gl.calls() if (call_target(t) or "").endswith("Vec::<T, A>::push") and has_call(arg_origin(ctx, gl, bb, 1), "fetch_block")]
-        fetches = sites_containing(gl, "Poll", "fetch_block")
+        fetches = [bb for bb, t in gl.calls() if _fetching(t)]
+        fnames = {(call_target(gl.term(bb)) or "").split("::")[-1] for bb in fetches}
+        pushes = [bb for bb, t in gl.calls() if (call_target(t) or "").endswith("Vec::<T, A>::push") and any(has_call(arg_origin(ctx, gl, bb, 1), n_) for n_ in fnames)]
         ret = og.show(ctx.og.local(gl, 0))
         same_vec = bool(pushes) and all(og.show(arg_origin(ctx, gl, p_, 0)) in ret for p_ in pushes)
         errs = {bb for bb, t in gl.calls() if (call_target(t) or "").endswith("::from_residual")}
